@@ -174,6 +174,7 @@ type runner struct {
 	u     *universe
 	out   *lib.Out
 	echo  map[string][2]string // goName of S -> (receiver variable, method name)
+	see   map[string][2]string // goName of S -> (receiver variable, See method name)
 	regOf map[string]*sinfo
 }
 
@@ -447,7 +448,7 @@ func main() {
 		regs[n] = x
 	}
 	u := newUniverse(regs)
-	rn := &runner{u: u, out: out, echo: map[string][2]string{}, regOf: u.byReg}
+	rn := &runner{see: map[string][2]string{}, u: u, out: out, echo: map[string][2]string{}, regOf: u.byReg}
 	// receivers of the identity methods: every registered type with a method Echo*(*S) *S
 	names := make([]string, 0)
 	for n := range regs {
@@ -458,9 +459,18 @@ func main() {
 		pt := reflect.TypeOf(regs[n])
 		for i := 0; i < pt.NumMethod(); i++ {
 			m := pt.Method(i)
+			if strings.HasPrefix(m.Name, "See") && m.Type.NumIn() == 2 && m.Type.NumOut() == 1 && m.Type.Out(0).Kind() == reflect.String && m.Type.In(1).Kind() == reflect.Ptr {
+				recv := "recv_" + n
+				if len(rn.recvs) == 0 || rn.recvs[len(rn.recvs)-1][0] != recv {
+					rn.recvs = append(rn.recvs, [2]string{recv, n})
+				}
+				rn.see[m.Type.In(1).Elem().String()] = [2]string{recv, m.Name}
+			}
 			if strings.HasPrefix(m.Name, "Echo") && m.Type.NumIn() == 2 && m.Type.NumOut() == 1 && m.Type.In(1) == m.Type.Out(0) && m.Type.In(1).Kind() == reflect.Ptr {
 				recv := "recv_" + n
-				rn.recvs = append(rn.recvs, [2]string{recv, n})
+				if len(rn.recvs) == 0 || rn.recvs[len(rn.recvs)-1][0] != recv {
+					rn.recvs = append(rn.recvs, [2]string{recv, n})
+				}
 				rn.echo[m.Type.In(1).Elem().String()] = [2]string{recv, m.Name}
 			}
 		}
@@ -495,7 +505,11 @@ func main() {
 	for k := 0; k < n; k++ {
 		g := newGen(u, rng.Fork())
 		s := regsList[g.r.Intn(len(regsList))]
-		switch k % 10 {
+		switch k % 12 {
+		case 10, 11: // history: convert, hset, convert again
+			initial, steps := rn.genHistory(g, s)
+			in, obs := rn.runHistory(initial, steps)
+			out.Case(in, obs, true, "stream:history", "op:hist", fmt.Sprintf("hist-steps:%d", len(steps)))
 		case 0, 1, 2: // valid, forward
 			rn.caseTogo(g.record(s, "top", 0), s, "stream:valid")
 		case 3, 4: // valid, round trip
